@@ -166,7 +166,8 @@ def run_file(path):
         data = json.load(f)
     os.environ['PYVC_REPO_SRC'] = data.get('repo_src') or '/repo/src'
     if data.get('bounded'):
-        p = subprocess.run([sys.executable, os.path.join(ROOT, data['bounded']), '--replay', path], cwd=ROOT)
+        parts = data['bounded'].split()
+        p = subprocess.run([sys.executable, os.path.join(ROOT, parts[0])] + parts[1:] + ['--replay', path], cwd=ROOT)
         return p.returncode
     print('replay of %s' % data['obligation'])
     print('  function %s (%s lines %s, hash %s)' % (data['function'], data['source_file'], data['source_lines'],
